@@ -16,6 +16,7 @@ PLAN = {
     'C09': dict(level='proof', engines=['chordnative', 'keynative']),
     'C10': dict(level='proof', engines=['chordre']),
     'C11': dict(level='proof', engines=['chordnative']),
+    'C12': dict(level='proof', engines=['sumlib']),
     'C13': dict(level='proof', engines=['intervalsnative']),
     'C14': dict(level='proof', engines=[]),
     'C18': dict(level='proof', engines=['sumlib', 'multipitchnative', 'matchnative']),
